@@ -155,6 +155,14 @@ fn main() {
             extra.push(("pair_stride".into(), (if thorough { 1 } else { 8 }).to_string()));
             seg::seg_layouts(&mut out, &mut rng, thorough);
             seg::seg_random(&mut out, &mut rng, if thorough { 300 } else { 40 }, if thorough { 300 } else { 120 });
+            // every history of up to 5 (thorough: 6) operations over five ranges, on a 32-point domain (buckets =
+            // points) and on a 128-point one (buckets of width 4)
+            let d = if thorough { 6 } else { 5 };
+            let (n1, f1) = hexh::seg_history_exhaustive(&mut out, 0, 31, &[(0, 31), (3, 3), (2, 5), (16, 23), (8, 20)], d);
+            let (n2, f2) = hexh::seg_history_exhaustive(&mut out, -64, 63, &[(-64, 63), (-61, -61), (-60, -47), (0, 31), (-33, 17)], d);
+            extra.push(("history_exhaustive_depth".into(), d.to_string()));
+            extra.push(("history_exhaustive_histories".into(), (n1 + n2).to_string()));
+            extra.push(("history_exhaustive_failed".into(), (f1 || f2).to_string()));
         }
         "seg-masks" => { seg::seg_mask_table(&mut out); }
         "seg-pairs" => {
